@@ -181,8 +181,17 @@ pub struct WireMonitor {
 }
 
 impl WireMonitor {
-    pub fn new(ep: u32, obs: SharedObs, flatten: bool, rules: Vec<ByzRule>, is_client: bool) -> Self {
-        WireMonitor { ep, obs, flatten, byz: crate::byz::ByzState::new(rules, is_client) }
+    pub fn new(
+        ep: u32,
+        obs: SharedObs,
+        flatten: bool,
+        rules: Vec<ByzRule>,
+        is_client: bool,
+        tls: crate::simtls::SharedTlsLog,
+    ) -> Self {
+        let mut byz = crate::byz::ByzState::new(rules, is_client);
+        byz.tls = Some(tls);
+        WireMonitor { ep, obs, flatten, byz }
     }
 }
 
@@ -211,6 +220,7 @@ impl Interceptor for WireMonitor {
             });
         }
         self.byz.on_rx(conn_of(subject), packet.number.space().into(), slice);
+        self.byz.note_rx_pn(conn_of(subject), packet.number.space().into(), packet.number.as_u64());
         DecoderBufferMut::new(slice)
     }
 
@@ -227,7 +237,8 @@ impl Interceptor for WireMonitor {
         let bytes: Vec<u8> = if self.flatten || self.byz.active() {
             let enc = payload.flatten();
             let len = enc.len();
-            let cap = enc.capacity();
+            // leave room for the AEAD tag
+            let cap = enc.capacity().saturating_sub(16);
             let cur = enc.as_mut_slice()[..len].to_vec();
             if let Some((new, desc)) = self.byz.on_tx(conn, space, packet.number.as_u64(), &cur, cap) {
                 enc.set_position(0);
